@@ -183,6 +183,7 @@ struct Outcome {
   uint64_t steps = 0, calls = 0; int maxDepth = 0; uint32_t reads = 0;
   std::vector<std::string> callTrace;   // names of procedures/functions entered, in order (for C15)
   bool readPastEnd = false;             // a read was performed with no input left (the answer was 255)
+  bool openOrderCalls = false;          // some operator had calls in both operands: their relative order is open (they commute, or the run would be UNDEFINED)
 };
 
 // ------------------------------------------------------------------------------------------------ interpreter
@@ -341,6 +342,7 @@ struct Interp {
         int32_t b = eval(e->r.get(), f, ef); if (b != 0 && b != 1) undef("logical operator on non-boolean");
         return b;
       }
+      if (e->l->hasCall && e->r->hasCall) oc.openOrderCalls = true;
       Eff e1, e2; int32_t a = eval(e->l.get(), f, e1), b = eval(e->r.get(), f, e2);
       if (conflicts(e1, e2)) undef("operands of a binary operator do not commute (evaluation order is open)");
       ef.merge(e1); ef.merge(e2);
